@@ -143,6 +143,10 @@ def run(ck):
     ck.rule("C13-O7", "the text the record's \"message\" member is made from is the text that was logged: LogMessage stores its message argument unchanged and message() returns it")
     from rules.oth import message_text_intact
     message_text_intact(ck, F, "C13-O7", "the \"message\" member of the JSON record is another text than the one that was logged, so the original text is not recovered")
+    ck.rule("C13-O8", "a record formatted behind a copy of the message (asynchronous logger, queued signal) shows the same category / file / function / line / attributes: the LogMessage copy "
+                      "constructor takes every member from the source and re-homes the three C strings in buffers the copy owns")
+    from rules.c03 import copy_ctor
+    copy_ctor(ck, "C13-O8")
     ck.rule("C13-O1", "format(): every entry of allAttributes() is inserted unconditionally as (it.key(), QJsonValue::fromVariant(it.value())) into the serialised object")
     ck.rule("C13-O2", "allAttributes(): exactly the built-in keys, each bound to its same-named accessor, then overlaid with the custom attributes, returned")
     ck.rule("C13-O3", "the result is QString::fromUtf8(QJsonDocument(obj).toJson(mode)) unedited; mode is Compact iff m_compact")
